@@ -28,7 +28,7 @@ def getStored (j : Json) : Except String Stored := do
 
 def getReq (j : Json) : Except String Req := do
   pure { keys := (← getNatList j "keys"), segs := (← getNatList j "segs"), combine := (← getBool j "combine"),
-         relabel := (← getBool j "relabel"), rescale := (← getBool j "rescale"), skip := (← getBool j "skip"),
+         relabel := (← getBool j "relabel"), rescale := (← getBool j "rescale"), skipOverlap := (← getBool j "skip"),
          dtype := (← dtypeOfName (← getStr j "dtype")) }
 
 def getMode (j : Json) : Except String Mode := do
